@@ -64,6 +64,13 @@ void profile_roundtrip(const json& plan, Ctx& ctx) {
 	setStage("init");
 	if (!makeInitial(plan["init"], *nif, ctx, &F0)) { ctx.info["rejected_init"] = true; ctx.probe("rejected_input"); return; }
 	ctx.sig.str(plan["init"].dump());
+	if (F0.empty()) {
+		// the initial model was built or edited in memory: its first save is the stored file F0 the cycles start from
+		setStage("synth:store-F0");
+		F0 = saveNif(*nif, SaveSpec()).bytes;
+		nif = std::make_unique<NifFile>();
+		if (loadNif(*nif, F0).rc != 0) { ctx.info["rejected_init"] = true; ctx.probe("rejected_input"); return; }
+	}
 	bool doRaw = jbool(plan, "raw", true), doDef = jbool(plan, "default", true);
 	if (doRaw) {
 		setStage("raw:F1");
